@@ -107,6 +107,17 @@ def shard(ctx, shard_no, nshards, n_random, stride):
             case = dict(inp, alias=alias)
             r = check_case(case, limit=limit, stats=stats)
             ctx.case((sem.case_key(inp), alias), r in ('split', 'moved-whole'), ('derived-input:' if inp.get('pre') else 'random:') + r, sample={'text': inp['text'], 'alias': alias} if r == 'split' else None)
+            if alias in (inp.get('aliases') or {}) and not inp.get('pre') and core.h64(inp['text']) % 3 == 0:
+                # history: the functions have been called on this object; a copy with the alias renamed (made by the
+                # library through but()) is then refactored for the new name - nothing of the first round may stick
+                ren = dict(inp, pre=['warm', f'rename:{alias}:Q9'], alias='Q9', aliases=dict(inp['aliases'], Q9=inp['aliases'][alias]))
+                r2 = check_case(ren, limit=limit, stats=stats)
+                ctx.case((sem.case_key(ren), 'Q9'), r2 in ('split', 'moved-whole'), 'renamed-copy:' + r2)
+                if inp.get('this') is not None:
+                    # ... and a copy in which the current message became a variable, refactored for the SAME alias
+                    mv = dict(inp, pre=['warm', 'this_to_var:W9'], alias=alias, aliases=dict(inp['aliases'], W9=inp['this']))
+                    r3 = check_case(mv, limit=limit, stats=stats)
+                    ctx.case((sem.case_key(mv), alias), r3 in ('split', 'moved-whole'), 'this-as-variable-copy:' + r3)
 
     with ctx.timed('random'):
         core.run_hypothesis(ctx, 'random', from_tape(lambda ch: sem.random_bool_case(ch, kinds=('condition', 'predicate', 'expression'))), body, n_random)
@@ -120,6 +131,21 @@ def shard(ctx, shard_no, nshards, n_random, stride):
                     ctx.report(v)
                     r = 'violation'
                 ctx.case((inp['text'], alias), r in ('split', 'moved-whole'), f'small:{name}:{r}', sample={'text': inp['text'], 'alias': alias} if r == 'split' else None)
+                if alias == 'A' and r == 'split' and core.h64(inp['text']) % 6 == 0:
+                    ren = dict(inp, pre=['warm', 'rename:A:Q9'], alias='Q9', aliases=dict(inp['aliases'], Q9=inp['aliases']['A']))
+                    try:
+                        r2 = check_case(ren, limit=limit, stats=stats)
+                    except Violation as v:
+                        ctx.report(v)
+                        r2 = 'violation'
+                    ctx.case((inp['text'], 'renamed'), r2 in ('split', 'moved-whole'), f'small-renamed-copy:{r2}')
+                    mv = dict(inp, pre=['warm', 'this_to_var:W9'], alias='A', aliases=dict(inp['aliases'], W9=inp['this']))
+                    try:
+                        r3 = check_case(mv, limit=limit, stats=stats)
+                    except Violation as v:
+                        ctx.report(v)
+                        r3 = 'violation'
+                    ctx.case((inp['text'], 'this-as-variable'), r3 in ('split', 'moved-whole'), f'small-this-as-variable-copy:{r3}')
     for k, v in stats.items():
         ctx.count(k, v)
 
